@@ -153,6 +153,8 @@ pub fn check_captures(prop: &str, case: &AstCase, ctx: &mut Ctx) -> Verdict {
             tree_groups(tree, &mut vec![], &mut gs);
             let mut mismatch: Option<(String, String, String)> = None;
             let mut mismatch_group: Option<usize> = None;
+            // the engine shows nothing (empty or absent) where the reference has a non-empty capture
+            let mut lost = false;
             let mut participated = 0;
             for g in 1..=ng {
                 let want: Option<String> = rm.caps[g].map(|(a, b)| s[a..b].iter().collect());
@@ -163,6 +165,7 @@ pub fn check_captures(prop: &str, case: &AstCase, ctx: &mut Ctx) -> Verdict {
                 let got_a = gs.iter().find(|(nr, _, _)| *nr == g).map(|x| x.1.clone());
                 let want_text = want.clone().unwrap_or_default();
                 if *got_r != want_text {
+                    lost = got_r.is_empty();
                     mismatch_group = Some(g);
                     mismatch = Some(("group-text(replace)".into(), format!("${g}={want_text:?}"), format!("${g}={got_r:?}")));
                     break;
@@ -174,11 +177,13 @@ pub fn check_captures(prop: &str, case: &AstCase, ctx: &mut Ctx) -> Verdict {
                         break;
                     }
                     (Some(w), None) if !w.is_empty() => {
+                        lost = true;
                         mismatch_group = Some(g);
                         mismatch = Some(("group-text(analyze)".into(), format!("Group nr={g} text {w:?}"), "absent".into()));
                         break;
                     }
                     (Some(w), Some(t)) if w != t => {
+                        lost = t.is_empty();
                         mismatch_group = Some(g);
                         mismatch = Some(("group-text(analyze)".into(), format!("Group nr={g} text {w:?}"), format!("text {t:?}")));
                         break;
@@ -217,7 +222,13 @@ pub fn check_captures(prop: &str, case: &AstCase, ctx: &mut Ctx) -> Verdict {
             }
             if let Some((sub, expected, actual)) = mismatch {
                 let mut regions = vec![];
-                let symptom = if sub == "group-absent(analyze)" && actual.ends_with("text \"\"") { "nonparticipating-group-empty-in-analyze" } else { "group-text-mismatch" };
+                let symptom = if sub == "group-absent(analyze)" && actual.ends_with("text \"\"") {
+                    "nonparticipating-group-empty-in-analyze"
+                } else if lost {
+                    "group-lost"
+                } else {
+                    "group-text-mismatch"
+                };
                 if let Some(g) = mismatch_group {
                     if group_under_quantifier(&m.node, g as u32) {
                         regions.push("group_inside_quantifier");
@@ -323,7 +334,34 @@ impl Prop for C03 {
         let inputs = crate::enumerate::inputs(&['a', 'b'], 3);
         let scope = format!("all {} ASTs of size <= {} built from a, b?, the empty term, sequence and capturing groups (>= 2 groups) x all {} inputs over {{a,b}} of length <= 3", nodes.len(), size, inputs.len());
         let it = nodes.into_iter().map(move |node| AstCase { node, flags: String::new(), inputs: Inputs::Lit(inputs.clone()) });
-        vec![("exhaustive-group-nesting".into(), scope, Box::new(it))]
+        // groups under quantifiers, inside bodies that are themselves repeated: which iteration's capture survives
+        let cfg2 = crate::enumerate::EnumCfg {
+            atoms: vec![
+                Node::Lit('a'),
+                Node::Lit('b'),
+                Node::Dot,
+                Node::cap(Node::Lit('a')),
+                Node::rep(Node::cap(Node::Lit('b')), 0, Some(1), true),
+                Node::rep(Node::cap(Node::Lit('b')), 0, None, true),
+                Node::cap(Node::Alt(vec![Node::Lit('a'), Node::Lit('b')])),
+            ],
+            quants: vec![(0, Some(1), true), (0, None, true), (1, None, true), (2, Some(2), true), (2, Some(3), true), (0, None, false), (1, None, false)],
+            cap: false,
+            noncap: false,
+            alt: true,
+            backref: false,
+        };
+        let size2 = tier.pick(5, 6);
+        let nodes2: Vec<Node> = crate::enumerate::up_to(&cfg2, size2).into_iter().filter(|n| n.n_groups() >= 1).collect();
+        let inputs2 = crate::enumerate::inputs(&['a', 'b'], 4);
+        let scope2 = format!(
+            "all {} ASTs of size <= {} with >= 1 group over atoms {{a, b, ., (a), (b)?, (b)*, (a|b)}} (each one node) x quantifiers {{?,*,+,{{2}},{{2,3}},*?,+?}} with concatenation and alternation x all {} inputs over {{a,b}} of length <= 4",
+            nodes2.len(),
+            size2,
+            inputs2.len()
+        );
+        let it2 = nodes2.into_iter().map(move |node| AstCase { node, flags: String::new(), inputs: Inputs::Lit(inputs2.clone()) });
+        vec![("exhaustive-group-nesting".into(), scope, Box::new(it)), ("exhaustive-groups-in-loops".into(), scope2, Box::new(it2))]
     }
     fn parts(&self, tier: Tier) -> Vec<Part<AstCase>> {
         let mut cfg = capture_cfg();
